@@ -17,7 +17,10 @@ Scale == /\ Is("Scale") /\ l' = l + 1
          /\ Ev.rangeMeanDevOK                      \* advertised range / mean / deviation of the scaled columns
 \* the affine up-scaling of integer weights and bias: raw-input predictions of the up-scaled model = up-scaled predictions on scaled inputs
 Affine == /\ Is("Affine") /\ l' = l + 1 /\ Ev.predRaw = Ev.predUp /\ Ev.exactSame
-Next == Scale \/ Affine
+\* real-valued data (1..300 rows x 1..20 columns, magnitudes 1e-6..1e6, arbitrary missing patterns, multi-output models): the driver's own
+\* long-double statistics and tolerance comparisons (environment predicates)
+Float == /\ Is("Float") /\ l' = l + 1 /\ Ev.statsOK /\ Ev.roundtripOK /\ Ev.advertisedOK /\ Ev.categoricalOK /\ Ev.missingOK /\ Ev.affineOK
+Next == Scale \/ Affine \/ Float
 Init == l = 1
 Spec == Init /\ [][Next]_l
 Accepted == LET d == TLCGet("stats").diameter IN
